@@ -25,7 +25,7 @@ def main():
     for r in insts[1:]:
         name2ids.setdefault(r["name"], []).append(r["id"])
     rng = vlib.rng_for(seed, "C02")
-    ops, meta = c02.gen_ops(forms, name2ids, rng, "quick")
+    ops, meta = c02.gen_ops(forms, name2ids, rng, sys.argv[2] if len(sys.argv) > 2 else "quick")
     impl, rc, err = vlib.run_lines([str(h)], ops)
     assert rc == 0 and len(impl) == len(ops), err[-500:]
     mon, _, _ = vlib.run_model("C02", ["mon " + o[5:] + " => " + r for o, r in zip(ops, impl)])
@@ -38,6 +38,8 @@ def main():
     disagree = collections.Counter()
     for k, r in zip(idx, res):
         i = bad[k]
+        if any(t in meta[i][1] for t in ("regtype", "elemtype", "elemidx", "kind", "combo", "opcount")):
+            continue      # the line no longer has the operand kinds of the row it was derived from: do not attribute it to the row
         w = int(impl[i].split()[1], 16)
         if r == w:
             agree[meta[i][0]].append((w, mon[i], ops[i], texts[k]))
